@@ -6,7 +6,9 @@
 //    special commands   hand-written, command-specific (SETPARAMETERS / SETDATA / INSERTORDEREDDATA / REORDERDATA / BATCH nests ...)
 // Filters come in ACCEPT / REJECT pairs with respect to the payloads the harness stores in every node (Rich(v), v >= 1):
 // class 'A' filters match every such payload, class 'R' filters match none (verified against the real QueryFilter code at
-// start-up by SelfCheckFilters()).  The edit-the-queue handlers (JETTISON*) only do work for accepted items.
+// start-up by SelfCheckFilters()).  The edit-the-queue handlers (JETTISON*) only do work for accepted items.  (Payloads that a
+// command of the alphabet itself stores -- empty Messages, filter archives used as payload -- can of course be accepted by an 'R'
+// filter; violation keys are therefore classified dynamically, see ClassOfMessage() in C07_robustness.cpp.)
 #ifndef VERIF_C07_ALPHABET_H
 #define VERIF_C07_ALPHABET_H
 
